@@ -505,6 +505,11 @@ func (in *Interp) store(p Value, v Value) {
 // symLoad: ite chain over the cells.
 func (in *Interp) symLoad(r SymRef) Value {
 	tt := in.TT
+	if in.mon != nil {
+		for k := range r.Cells {
+			in.mon.read(&r.Cells[k])
+		}
+	}
 	n := len(r.Cells)
 	res := copyVal(r.Cells[n-1])
 	for k := n - 2; k >= 0; k-- {
@@ -516,6 +521,11 @@ func (in *Interp) symLoad(r SymRef) Value {
 
 func (in *Interp) symStore(r SymRef, v Value) {
 	tt := in.TT
+	if in.mon != nil {
+		for k := range r.Cells {
+			in.mon.write(&r.Cells[k])
+		}
+	}
 	for k := range r.Cells {
 		c := tt.Cmp(OpEq, r.Idx, tt.Const(64, uint64(k)))
 		storeInto(&r.Cells[k], in.iteValue(c, v, r.Cells[k]))
